@@ -42,6 +42,18 @@ fp2_batched_inv(fp2_t *x, int len)
 {
     fp2_t t1[len], t2[len];
     fp2_t inverse;
+    fp2_t one, zero;
+    uint32_t z[len];
+
+    // a zero entry must not poison the batch: replace it by one (constant time),
+    // invert the batch, and put zero back at the end, so that the result is the
+    // element-wise fp2_inv (which maps 0 to 0) for every batch
+    fp2_set_one(&one);
+    fp2_set_zero(&zero);
+    for (int i = 0; i < len; i++) {
+        z[i] = fp2_is_zero(&x[i]);
+        fp2_select(&x[i], &x[i], &one, z[i]);
+    }
 
     // x = x0,...,xn
     // t1 = x0, x0*x1, ... ,x0 * x1 * ... * xn
@@ -63,6 +75,10 @@ fp2_batched_inv(fp2_t *x, int len)
     x[0] = t2[len - 1];
     for (int i = 1; i < len; i++) {
         fp2_mul(&x[i], &t1[i - 1], &t2[len - i - 1]);
+    }
+
+    for (int i = 0; i < len; i++) {
+        fp2_select(&x[i], &x[i], &zero, z[i]);
     }
 }
 
